@@ -23,6 +23,7 @@ struct OpEntry {
 	std::vector<Arg> args, outs;
 	int nin = 0, nout = 0;
 	bool lowp = false;
+	bool zero_sign_free = false;  // min/max family: GLSL and C leave the sign of a zero result unspecified (fmax(-0,+0) may be either)
 };
 static std::vector<Lib> g_libs;
 static std::vector<OpEntry> g_ops;
@@ -225,7 +226,7 @@ static void prop_op(pbt::Ctx& c, int idx) {
 		const Lib& lib = g_libs[ot.first];
 		memset(out, 0, sizeof out);
 		ot.second->fn(in, out);
-		char cls = g_bits_mode ? 'B' : (op.lowp ? op.base->cls_lowp : op.base->cls);
+		char cls = g_bits_mode ? (op.zero_sign_free ? 'V' : 'B') : (op.lowp ? op.base->cls_lowp : op.base->cls);
 		int pos = 0; const char* why = nullptr; int badpos = -1; double worst = 0;
 		for (const Arg& a : op.outs) for (int i = 0; i < a.n; ++i, ++pos) {
 			const char* w = nullptr; double r = 0;
@@ -303,6 +304,10 @@ int main(int argc, char** argv) {
 		for (auto& a : E.args) E.nin += slots_of(a);
 		for (auto& a : E.outs) E.nout += a.n;
 		E.lowp = E.name.size() > 5 && E.name.compare(E.name.size() - 5, 5, ".lowp") == 0;
+		{
+			static const char* const fam[] = {"min.", "max.", "min_s.", "max_s.", "min3.", "max4.", "fmin.", "fmax.", "clamp.", "clamp_s.", "fclamp."};
+			for (const char* f : fam) if (E.name.compare(0, strlen(f), f) == 0) E.zero_sign_free = true;
+		}
 		if (E.nin > 150 || E.nout > 60 || (int)g_ops.size() >= MAXOPS) { fprintf(stderr, "op %s too large\n", E.name.c_str()); return 2; }
 		g_ops.push_back(E);
 	}
